@@ -121,7 +121,14 @@ fn set(scn: &Value, cz: &mut Cz) -> Value {
         let mut name = String::new();
         for t in util::arr(&c["n"]) { match cz.pick_in(util::s(t), ck_reps(util::s(t))) { Ok(ch) => name.push(ch), Err(e) => return tool(e) } }
         let mut value = String::new();
-        for t in util::arr(&c["v"]) { match cz.pick_in(util::s(t), ck_reps(util::s(t))) { Ok(ch) => value.push(ch), Err(e) => return tool(e) } }
+        let vt: Vec<&str> = util::arr(&c["v"]).iter().map(util::s).collect();
+        for (k, t) in vt.iter().enumerate() {
+            // an alphanumeric right after a `%` (or after `%` + one alphanumeric) is a hex digit in half of the scenarios:
+            // the value then LOOKS like a percent-escape and must still come back as itself
+            let after_pct = (k >= 1 && vt[k - 1] == "pct") || (k >= 2 && vt[k - 2] == "pct" && vt[k - 1] == "al");
+            let reps: &[char] = if *t == "al" && after_pct && scn["id"].as_u64().unwrap_or(0) % 2 == 0 { &['2', '5', 'F', 'a', '0', '7'] } else { ck_reps(t) };
+            match cz.pick_in(t, reps) { Ok(ch) => value.push(ch), Err(e) => return tool(e) }
+        }
         let d = &c["d"];
         let ds = |k: &str| util::s(&d[k]).to_string();
         let maxage: Option<u64> = match ds("maxage").as_str() { "none" => None, "max" => Some(u64::MAX), s => match s.parse() { Ok(n) => Some(n), Err(_) => return tool("bad maxage") } };
